@@ -383,6 +383,53 @@ func (p *Prog) factKey(cond ssa.Value) (string, bool) {
 type pathFact struct {
 	cond  ssa.Value
 	truth bool
+	ct    bool // truth of the canonical form the fact is keyed by (x != y is keyed as x == y, x > y as x <= y, …)
+}
+
+// canonFact is factKey with the comparison brought into a canonical form, so that `p != nil` false and `p == nil`
+// true (or `n > k` and `n <= k`) are recognised as the same fact: it returns the key of the canonical comparison and
+// the truth value the fact has for that comparison.
+func (p *Prog) canonFact(cond ssa.Value, truth bool) (string, bool, bool) {
+	k, ok := p.factKey(cond)
+	if !ok {
+		return "", false, false
+	}
+	bo, isBin := cond.(*ssa.BinOp)
+	if !isBin {
+		return k, truth, true
+	}
+	op, t := bo.Op, truth
+	switch op {
+	case token.NEQ:
+		op, t = token.EQL, !t
+	case token.GTR:
+		op, t = token.LEQ, !t
+	case token.GEQ:
+		op, t = token.LSS, !t
+	case token.EQL, token.LEQ, token.LSS:
+	default:
+		return k, truth, true
+	}
+	var kx, ky string
+	if strings.HasPrefix(k, "id:") {
+		kx, ky = fmt.Sprintf("%p", p.origin(bo.X)), fmt.Sprintf("%p", p.origin(bo.Y))
+		if c, isC := p.origin(bo.X).(*ssa.Const); isC {
+			kx = p.pureKey(c)
+		}
+		if c, isC := p.origin(bo.Y).(*ssa.Const); isC {
+			ky = p.pureKey(c)
+		}
+	} else {
+		kx, ky = p.pureKey(bo.X), p.pureKey(bo.Y)
+	}
+	if op == token.EQL && ky < kx {
+		kx, ky = ky, kx
+	}
+	pre := ""
+	if strings.HasPrefix(k, "id:") {
+		pre = "id:"
+	}
+	return pre + "(" + kx + op.String() + ky + ")", t, true
 }
 
 // disjunct is one path class: the pure conditions known on it.
@@ -391,7 +438,7 @@ type disjunct map[string]pathFact
 func (d disjunct) key() string {
 	ks := make([]string, 0, len(d))
 	for k, f := range d {
-		if f.truth {
+		if f.ct {
 			ks = append(ks, k+"=T")
 		} else {
 			ks = append(ks, k+"=F")
@@ -423,11 +470,11 @@ func (p *Prog) purePathFacts(fn *ssa.Function) map[*ssa.BasicBlock][]disjunct {
 			return "", pathFact{}, false
 		}
 		f := normFact(condFact{c, from.Succs[0] == to})
-		k, ok := p.factKey(f.cond)
+		k, ct, ok := p.canonFact(f.cond, f.truth)
 		if !ok {
 			return "", pathFact{}, false
 		}
-		return k, pathFact{f.cond, f.truth}, true
+		return k, pathFact{f.cond, f.truth, ct}, true
 	}
 	for iter := 0; iter < 50; iter++ {
 		changed := false
@@ -441,7 +488,7 @@ func (p *Prog) purePathFacts(fn *ssa.Function) map[*ssa.BasicBlock][]disjunct {
 				k, f, has := edgeFact(pr, b)
 				for _, d := range in[pr] {
 					if has {
-						if old, ok := d[k]; ok && old.truth != f.truth {
+						if old, ok := d[k]; ok && old.ct != f.ct {
 							continue // infeasible
 						}
 					}
@@ -465,7 +512,7 @@ func (p *Prog) purePathFacts(fn *ssa.Function) map[*ssa.BasicBlock][]disjunct {
 				for k, f := range nw[0] {
 					all := true
 					for _, d := range nw[1:] {
-						if g, ok := d[k]; !ok || g.truth != f.truth {
+						if g, ok := d[k]; !ok || g.ct != f.ct {
 							all = false
 							break
 						}
@@ -521,8 +568,8 @@ func (p *Prog) factsAt(b *ssa.BasicBlock) [][]condFact {
 		// drop classes contradicted by dominating pure facts
 		ok := true
 		for _, f := range dom {
-			if k, isKey := p.factKey(f.cond); isKey {
-				if g, has := d[k]; has && g.truth != f.truth {
+			if k, ct, isKey := p.canonFact(f.cond, f.truth); isKey {
+				if g, has := d[k]; has && g.ct != ct {
 					ok = false
 				}
 			}
